@@ -1,1 +1,78 @@
-From PC Require Import Model.Marker.
+(* C06 — marker evaluation agrees with the PEP 508 reference.
+   Model: Model/Marker.v (leaf construction from the two regexes and the constraint parsers; evaluation of every
+   marker class).  The lark grammar is not modelled (the model receives the engine's parse tree).
+   Proved: what each kind of leaf evaluates to, in terms of the specifier semantics validated against packaging
+   (Spec/Specifier.v), string equality / token lists, and normalised-extra membership; and-or structure.
+   The link from leaf text to leaf constraint (SingleMarker.__init__) is tied by correspondence only. *)
+From Coq Require Import List Bool NArith String.
+From PC Require Import Base.Result Model.Pep440 Spec.Pep440Spec Spec.Specifier Model.VConstraint Model.Generic Model.Marker
+     Proofs.SpecifierAgree Proofs.MarkerProofs.
+Import ListNotations.
+Open Scope string_scope.
+
+Theorem C06_version_leaf_ge : forall E name l value c,
+  String.eqb name "extra" = false -> lookup name (e_vars E) = Some value ->
+  parse_constraint_text true (negb (String.eqb name "platform_release")) value = Ok (VOne (RV c)) ->
+  is_local l = false ->
+  validate_con name (CV (VOne (RR (Some l) None true false))) E = Ok (sp_ge l c).
+Proof. exact leaf_ge. Qed.
+Print Assumptions C06_version_leaf_ge.
+Theorem C06_version_leaf_le : forall E name l value c,
+  String.eqb name "extra" = false -> lookup name (e_vars E) = Some value ->
+  parse_constraint_text true (negb (String.eqb name "platform_release")) value = Ok (VOne (RV c)) ->
+  is_local l = false ->
+  validate_con name (CV (VOne (RR None (Some l) false true))) E = Ok (sp_le l c).
+Proof. exact leaf_le. Qed.
+Print Assumptions C06_version_leaf_le.
+Theorem C06_version_leaf_eq : forall E name l value c,
+  String.eqb name "extra" = false -> lookup name (e_vars E) = Some value ->
+  parse_constraint_text true (negb (String.eqb name "platform_release")) value = Ok (VOne (RV c)) ->
+  validate_con name (CV (VOne (RV l))) E = Ok (sp_eq l c).
+Proof. exact leaf_eq. Qed.
+Print Assumptions C06_version_leaf_eq.
+Theorem C06_version_leaf_gt : forall E name l value c,
+  String.eqb name "extra" = false -> lookup name (e_vars E) = Some value ->
+  parse_constraint_text true (negb (String.eqb name "platform_release")) value = Ok (VOne (RV c)) ->
+  wf l = true -> wf c = true -> is_final l = true ->
+  validate_con name (CV (VOne (RR (Some l) None false false))) E = Ok (sp_gt l c).
+Proof. exact leaf_gt_final. Qed.
+Print Assumptions C06_version_leaf_gt.
+Theorem C06_version_leaf_lt : forall E name l value c,
+  String.eqb name "extra" = false -> lookup name (e_vars E) = Some value ->
+  parse_constraint_text true (negb (String.eqb name "platform_release")) value = Ok (VOne (RV c)) ->
+  wf l = true -> wf c = true -> is_final l = true ->
+  validate_con name (CV (VOne (RR None (Some l) false false))) E = Ok (sp_lt l c).
+Proof. exact leaf_lt_final. Qed.
+Print Assumptions C06_version_leaf_lt.
+Theorem C06_string_leaf : forall E name c value,
+  String.eqb name "extra" = false -> lookup name (e_vars E) = Some value ->
+  validate_con name (CG c) E = Ok (sat c value).
+Proof. exact leaf_string. Qed.
+Print Assumptions C06_string_leaf.
+Theorem C06_extra_leaf : forall E v op act, e_extras E = Some act ->
+  validate_con "extra" (CG (GS (SAtom (mkA v op true)))) E =
+  match op with
+  | GEq => Ok (mem_str (canon_name v) (map canon_name act))
+  | GNe => Ok (negb (mem_str (canon_name v) (map canon_name act)))
+  | _ => Err EAssert
+  end.
+Proof. exact leaf_extra. Qed.
+Print Assumptions C06_extra_leaf.
+(* compound markers: when no leaf raises, evaluation is the Boolean formula over the leaves *)
+Theorem C06_structure : forall E m, leaves_ok E m = true -> validate m E = Ok (beval E m).
+Proof. exact validate_beval. Qed.
+Print Assumptions C06_structure.
+
+Definition leaf_holds (name cstr : string) (swapped : bool) (E : env) : bool :=
+  match mk_leaf name cstr swapped with
+  | Ok l => match validate_con (l_name l) (l_con l) E with Ok true => true | _ => false end
+  | Err _ => false
+  end.
+Example C06_example :
+  let E := mkEnv [("python_version", "3.9"); ("sys_platform", "linux")] (Some ["A_b"]) in
+  leaf_holds "python_version" ">=3.8" false E = true /\
+  leaf_holds "sys_platform" "in win32 linux" false E = true /\
+  leaf_holds "extra" "==a.B" false E = true /\
+  leaf_holds "sys_platform" """nux"" in" true E = true /\
+  leaf_holds "python_version" "<3.9" false E = false.
+Proof. vm_compute. repeat split. Qed.
